@@ -152,20 +152,22 @@ def _extract(repo, outdir, config):
 
 
 def ensure(config="default", repo=None, quiet=False):
-    """Return the directory holding up-to-date facts for `repo` under `config`."""
+    """Return the directory holding up-to-date facts for `repo` under `config`.
+    Facts are cached per source hash (the three most recent trees are kept)."""
     repo = repo or REPO
     os.makedirs(CACHE, exist_ok=True)
     tag = hashlib.sha256(os.path.abspath(repo).encode()).hexdigest()[:8]
-    outdir = os.path.join(CACHE, f"facts-{tag}-{config}")
     lock_path = os.path.join(CACHE, f"lock-{tag}-{config}")
     with open(lock_path, "w") as lf:
         fcntl.flock(lf, fcntl.LOCK_EX)
         h = source_hash(repo)
+        outdir = os.path.join(CACHE, f"facts-{tag}-{config}-{h[:16]}")
         stamp = os.path.join(outdir, "STAMP.json")
         if os.path.exists(stamp):
             try:
                 st = json.load(open(stamp))
                 if st.get("hash") == h and st.get("ok"):
+                    os.utime(outdir, None)
                     return outdir
             except Exception:
                 pass
@@ -177,6 +179,11 @@ def ensure(config="default", repo=None, quiet=False):
             json.dump({"hash": h, "ok": True, "config": config, "repo": repo, "wall_s": round(time.time() - t0, 2), "log": log, "time": time.time()}, f)
         if not quiet:
             print(f"[facts] done in {time.time() - t0:.1f}s", file=sys.stderr)
+        # prune: keep the three most recently used fact sets of this repo/config
+        prefix = f"facts-{tag}-{config}-"
+        dirs = sorted((d for d in os.listdir(CACHE) if d.startswith(prefix)), key=lambda d: os.path.getmtime(os.path.join(CACHE, d)), reverse=True)
+        for d in dirs[3:]:
+            shutil.rmtree(os.path.join(CACHE, d), ignore_errors=True)
         return outdir
 
 
@@ -187,3 +194,34 @@ def load(outdir, name):
 
 def stamp(outdir):
     return json.load(open(os.path.join(outdir, "STAMP.json")))
+
+
+def witness(outdir, repo=None):
+    """Type-level witnesses (engine C): cargo check of engines/witness against repo/rsass.
+    Cached beside the facts (same source hash).  Returns {"ok": bool, "negative_control_fails": bool, "stderr": str}."""
+    repo = repo or REPO
+    cache = os.path.join(outdir, "witness.json")
+    if os.path.exists(cache):
+        return json.load(open(cache))
+    env = _env()
+    tdir = tempfile.mkdtemp(prefix="verif-wit-")
+    try:
+        crate = os.path.join(tdir, "witness")
+        shutil.copytree(os.path.join(VERIF, "engines", "witness"), crate, ignore=shutil.ignore_patterns("target"))
+        ct = open(os.path.join(crate, "Cargo.toml")).read().replace('path = "/repo/rsass"', f'path = "{os.path.join(os.path.abspath(repo), "rsass")}"')
+        open(os.path.join(crate, "Cargo.toml"), "w").write(ct)
+        shutil.copy(os.path.join(repo, "Cargo.lock"), os.path.join(crate, "Cargo.lock"))
+        e = dict(env)
+        e["CARGO_TARGET_DIR"] = os.path.join(tdir, "target")
+        e["RUSTFLAGS"] = "-Awarnings"
+        p = subprocess.run(["cargo", "+nightly", "check", "--offline"], cwd=crate, env=e, stdout=subprocess.PIPE, stderr=subprocess.PIPE, text=True)
+        ok = p.returncode == 0
+        e["RUSTFLAGS"] = "-Awarnings --cfg witness_negative"
+        n = subprocess.run(["cargo", "+nightly", "check", "--offline"], cwd=crate, env=e, stdout=subprocess.PIPE, stderr=subprocess.PIPE, text=True)
+        neg = n.returncode != 0 and "E0277" in n.stderr
+        res = {"ok": ok, "negative_control_fails": neg, "stderr": p.stderr[-3000:] if not ok else "", "negative_stderr_tail": n.stderr[-600:]}
+    finally:
+        shutil.rmtree(tdir, ignore_errors=True)
+    with open(cache, "w") as f:
+        json.dump(res, f)
+    return res
